@@ -2,12 +2,13 @@
 
 CHECK = {
     "harnesses": [
-        {"exe": "c01_quadratic", "flavour": "plain", "cases": (1200000, 12000000), "procs": (8, 14), "subs": ["solve", "truthful"]},
+        {"exe": "c01_quadratic", "flavour": "plain", "cases": (1200000, 24000000), "procs": (8, 14), "subs": ["solve", "truthful"]},
     ],
-    "min_nontrivial": (200000, 2000000),
+    "min_nontrivial": (200000, 4000000),
     "timeout": (900, 7200),
     "rule": ("sub-check solve (3/4 of the cases): rapidcheck-generated quadratics 0.5x'Ax+a'x, A = s*Q*diag(kappa^e_i)*Q' with Q from the Householder QR of a "
-             "generated Gaussian matrix, n in 1..16, kappa in [1,1e3] (30 % exactly 1e3), s in [1e-3,1e3] (10 % on each end), three spectrum layouts, "
+             "generated Gaussian matrix, n in 1..16, kappa in [1,1e3] (30 % exactly 1e3), s in [1e-3,1e3] (10 % on each end), three spectrum layouts, 30 % of the instances from the region that costs most evaluations (n >= 12, "
+             "kappa mostly 1e3, s mostly 1e-3), "
              "x* in [-5,5]^n (also corners, origin), x0 in [-10,10]^n (also corners, x0 = x*), solver lbfgs|bfgs at epsilon 1e-8, max_evals 1500; oracle: "
              "status converged, function+gradient evaluations counted by the harness' own function object <= 1500, "
              "||x-x*||_2 <= sqrt(n)*eps*max(1,|f(x)|)/lambda_min with f in long double and x* corrected for the rounding of a, and the recomputed "
@@ -21,7 +22,7 @@ CHECK = {
                     "the registered benchmark functions evaluate deterministically (a second instance reproduces value and gradient bit for bit; observed on every case)",
                     "rapidcheck generators; Eigen"],
     "technique": "property-based testing (rapidcheck) against analytic ground truth built into the generated instance and independent re-evaluation of the stopping criterion",
-    "level_text": ("Generated-input exploration: about a million (quick) to ten million (thorough) generated problems and solver configurations; every run is "
+    "level_text": ("Generated-input exploration: about a million (quick) to tens of millions (thorough) generated problems and solver configurations; every run is "
                    "judged against the known minimiser / an independent re-evaluation; held on everything generated, no claim beyond that."),
     "level_note": "trusted: the harness-side quadratic construction and long double reference arithmetic, rapidcheck, Eigen; the evaluation budget is counted by the harness' own function object",
 }
